@@ -74,7 +74,7 @@ impl Known {
                 trig.iter().any(|t| {
                     (*t == id.as_str() && applies(id, cfg))
                         || (*t == "R22w" && id.as_str() == "R22")
-                        || (*t == "R31s" && id.as_str() == "R31" && cfg.is_none_or(|c| c.tab >= 2))
+                        || (*t == "R31s" && id.as_str() == "R31")
                 })
             })
             .cloned()
@@ -83,12 +83,12 @@ impl Known {
 
 /// Findings whose defect depends on the indent unit (measured on the pinned tree over a grid of
 /// shapes x units): R22 (markers nested on one line) needs a unit other than the marker width 2,
-/// R31 (item on the line of the opening bracket) a unit >= 3. With the default unit these input
+/// R31 (item on the line of the opening bracket, behind `#[` or a callee) a unit other than 2. With the default unit these input
 /// classes are searched like any other.
 fn applies(id: &str, cfg: Option<&crate::api::Cfg>) -> bool {
     match (id, cfg) {
         ("R22", Some(c)) => c.tab != 2,
-        ("R31", Some(c)) => c.tab >= 3,
+        ("R31", Some(c)) => c.tab != 2,
         _ => true,
     }
 }
@@ -101,7 +101,23 @@ pub fn triggers(src: &str, root: &SyntaxNode) -> Vec<&'static str> {
             v.push(id);
         }
     };
-    let _ = src;
+    // R1 (CR form): CR, blanks, LF -- stripping the blanks makes it a CRLF pair, one line break
+    {
+        let b = src.as_bytes();
+        let mut i = 0;
+        while i < b.len() {
+            if b[i] == b'\r' {
+                let mut j = i + 1;
+                while j < b.len() && (b[j] == b' ' || b[j] == b'\t') {
+                    j += 1;
+                }
+                if j > i + 1 && j < b.len() && b[j] == b'\n' {
+                    add("R1");
+                }
+            }
+            i += 1;
+        }
+    }
     let flat = syn::flatten(root);
     // ancestors in math?
     let in_math: Vec<bool> = {
@@ -161,6 +177,13 @@ pub fn triggers(src: &str, root: &SyntaxNode) -> Vec<&'static str> {
                 }
             }
             _ => {}
+        }
+    }
+    // R68: an unterminated block comment at the very end that ends in blanks
+    if let Some(&i) = leaves.last() {
+        let t = flat[i].node.text();
+        if flat[i].node.kind() == K::BlockComment && !t.ends_with("*/") && t.chars().last().is_some_and(|c| c.is_whitespace()) {
+            add("R68");
         }
     }
     // R54: `@typstyle off` before a list / enum / term item: the item's first line is placed at
@@ -341,6 +364,24 @@ pub fn triggers(src: &str, root: &SyntaxNode) -> Vec<&'static str> {
     }
     for (i, f) in flat.iter().enumerate() {
         let k = f.node.kind();
+        // R66 / R67: the padding blanks of a math call's argument list are dropped although the
+        // neighbouring characters then fuse: a combining mark with the parenthesis before it,
+        // two dots with the parenthesis / separator after them (a spread)
+        if matches!(k, K::Args | K::Array) && in_math[i] {
+            let kids: Vec<&SyntaxNode> = f.node.children().collect();
+            for w in 0..kids.len() {
+                let txt = syn::text_of(kids[w]);
+                if w > 0 && matches!(kids[w - 1].kind(), K::Space) && txt.chars().next().is_some_and(is_combining) {
+                    add("R66");
+                }
+                if txt.ends_with("..")
+                    && kids.get(w + 1).is_some_and(|n| n.kind() == K::Space)
+                    && kids.get(w + 2).is_none_or(|n| matches!(n.kind(), K::RightParen | K::Comma | K::Semicolon))
+                {
+                    add("R67");
+                }
+            }
+        }
         // rules whose node kinds overlap get a match of their own
         match k {
             // R33: a multi-line block comment in an argument list that also holds a multi-line raw
@@ -504,7 +545,8 @@ pub fn triggers(src: &str, root: &SyntaxNode) -> Vec<&'static str> {
                 let kids: Vec<&SyntaxNode> = f.node.children().collect();
                 let run = |x: &SyntaxNode| x.kind() == K::Space && !syn::has_nl(x.text()) && x.text().chars().count() >= 2;
                 let in_body = matches!(f.parent, Some(K::Heading | K::ListItem | K::EnumItem | K::TermItem));
-                (in_body && kids.windows(2).any(|w| run(w[0]) && w[1].kind() == K::Text && w[1].text().chars().next().is_some_and(|c| c.is_ascii_digit())))
+                let _ = in_body;
+                (kids.windows(2).any(|w| run(w[0]) && w[1].kind() == K::Text && w[1].text().chars().next().is_some_and(|c| c.is_ascii_digit())))
                     // ... or the text after the run carries a label, which then attaches to the merged text
                     || kids.windows(3).any(|w| run(w[0]) && w[1].kind() == K::Text && w[2].kind() == K::Label)
                     || kids.windows(4).any(|w| run(w[0]) && w[1].kind() == K::Text && w[2].kind() == K::Space && w[3].kind() == K::Label)
@@ -592,7 +634,14 @@ pub fn triggers(src: &str, root: &SyntaxNode) -> Vec<&'static str> {
                     .filter(|c| c.kind() == K::Markup)
                     .any(|m| m.children().all(|x| x.kind() == K::Space || syn::is_comment(x.kind())));
                 let no_markup = !f.node.children().any(|c| c.kind() == K::Markup);
-                if empty || no_markup {
+                // ... or the body only starts on a later line
+                let late_body = f
+                    .node
+                    .children()
+                    .skip_while(|c| !matches!(c.kind(), K::ListMarker | K::EnumMarker | K::TermMarker))
+                    .nth(1)
+                    .is_some_and(|c| c.kind() == K::Parbreak || (c.kind() == K::Space && syn::has_nl(c.text())));
+                if empty || no_markup || late_body {
                     add("R21");
                 }
                 // R9: a comment as the first thing of an item body (on the line after the marker)
@@ -603,6 +652,17 @@ pub fn triggers(src: &str, root: &SyntaxNode) -> Vec<&'static str> {
                 // (or directly inside the item, between marker / colon and body)
                 if comment_first || f.node.children().any(|c| syn::is_comment(c.kind())) {
                     add("R9");
+                }
+                if f.node.children().any(|c| c.kind() == K::BlockComment && syn::has_nl(c.text())) {
+                    add("R64");
+                }
+                // R64 (item form): a multi-line block comment right behind the marker with content after it
+                // on its last line: the body's column is measured behind the comment
+                if f.node.children().filter(|c| c.kind() == K::Markup).any(|m| {
+                    let mut it = m.children().filter(|x| !(x.kind() == K::Space && !syn::has_nl(x.text())));
+                    it.next().is_some_and(|x| x.kind() == K::BlockComment && syn::has_nl(x.text())) && it.next().is_some_and(|n| !matches!(n.kind(), K::Space | K::Parbreak))
+                }) {
+                    add("R64");
                 }
                 // R22: an item whose body starts with another item on the same line (`+ - x`):
                 // continuation lines are re-indented by tab_spaces, which for tab_spaces >= 3
@@ -654,7 +714,47 @@ pub fn triggers(src: &str, root: &SyntaxNode) -> Vec<&'static str> {
                                 _ => false,
                             }
                         });
-                        add(if behind_something { "R31" } else { "R31s" });
+                        // on a markup line that also holds text, or inside an equation, optional line breaks
+                        // are suppressed: the item always stays behind the bracket, whatever the unit
+                        let suppressed = {
+                            let mut cur = f.parent_idx;
+                            let mut res = false;
+                            while let Some(ci) = cur {
+                                match flat[ci].parent {
+                                    Some(K::Math | K::Equation | K::MathDelimited | K::MathAttach | K::MathFrac | K::MathRoot) => {
+                                        res = true;
+                                        break;
+                                    }
+                                    Some(K::Markup) => {
+                                        // siblings of flat[ci] on the same line
+                                        let pi = flat[ci].parent_idx.unwrap();
+                                        let sibs: Vec<&syn::Flat> = flat.iter().filter(|g| g.parent_idx == Some(pi)).collect();
+                                        let pos = sibs.iter().position(|g| g.start == flat[ci].start && g.end == flat[ci].end).unwrap_or(0);
+                                        let is_brk = |g: &syn::Flat| g.node.kind() == K::Parbreak || (g.node.kind() == K::Space && syn::has_nl(g.node.text()));
+                                        let texty = |g: &syn::Flat| matches!(g.node.kind(), K::Text | K::Strong | K::Emph | K::Raw | K::Escape | K::Shorthand | K::SmartQuote | K::Link | K::Ref | K::Label | K::Linebreak | K::Equation);
+                                        let mut k = pos;
+                                        while k > 0 && !is_brk(sibs[k - 1]) {
+                                            k -= 1;
+                                            if texty(sibs[k]) {
+                                                res = true;
+                                            }
+                                        }
+                                        let mut k = pos + 1;
+                                        while k < sibs.len() && !is_brk(sibs[k]) {
+                                            if texty(sibs[k]) {
+                                                res = true;
+                                            }
+                                            k += 1;
+                                        }
+                                        // keep climbing: an enclosing line may be mixed as well
+                                    }
+                                    _ => {}
+                                }
+                                cur = flat[ci].parent_idx;
+                            }
+                            res
+                        };
+                        add(if !behind_something || suppressed { "R31s" } else { "R31" });
                     }
                 }
                 // R30: list / enum / term items inside strong or emphasis: the edge blanks of the
@@ -679,7 +779,7 @@ pub fn triggers(src: &str, root: &SyntaxNode) -> Vec<&'static str> {
                     let first_sp = f.node.children().next().is_some_and(|c| c.kind() == K::Space && !syn::has_nl(c.text()));
                     let last_sp = f.node.children().last().is_some_and(|c| c.kind() == K::Space && !syn::has_nl(c.text()));
                     let single_line = !f.node.children().any(|c| c.kind() == K::Parbreak || (c.kind() == K::Space && syn::has_nl(c.text())));
-                    let embeds = f.node.children().any(|c| matches!(c.kind(), K::Hash | K::Equation));
+                    let embeds = f.node.children().any(|c| matches!(c.kind(), K::Hash | K::Equation | K::Ref));
                     // asymmetric edge blanks, or embedded code that cannot stay on one line
                     let forced = syn::has_nl(&syn::text_of(f.node))
                         || syn::any_node(f.node, &mut |x| {
@@ -729,8 +829,14 @@ pub fn triggers(src: &str, root: &SyntaxNode) -> Vec<&'static str> {
                     if let Some(item) = kids.iter().rev().find(|c| c.kind() != K::Space).filter(|c| matches!(c.kind(), K::ListItem | K::EnumItem | K::TermItem)) {
                         let txt = syn::text_of(item);
                         let last_line = txt.rsplit(syn::is_nl).next().unwrap_or("").trim_start();
-                        let marker = last_line == "-" || last_line == "+" || (last_line.len() > 1 && last_line.ends_with('.') && last_line[..last_line.len() - 1].chars().all(|ch| ch.is_ascii_digit()));
+                        let is_marker = |w: &str| w == "-" || w == "+" || (w.len() > 1 && w.ends_with('.') && w[..w.len() - 1].chars().all(|ch| ch.is_ascii_digit()));
+                        let marker = is_marker(last_line);
                         if marker && syn::has_nl(&txt) && kids.last().is_some_and(|l| l.kind() != K::Space) {
+                            add("R18");
+                        }
+                        // ... or as the last word of the item (`+ +]`: a nested marker once a line break follows)
+                        let last_word = txt.rsplit(char::is_whitespace).next().unwrap_or("");
+                        if is_marker(last_word) && txt.trim_start().len() > last_word.len() && kids.last().is_some_and(|l| l.kind() != K::Space) {
                             add("R18");
                         }
                     }
@@ -751,23 +857,11 @@ pub fn triggers(src: &str, root: &SyntaxNode) -> Vec<&'static str> {
                     }
                 }
             }
-            // R66 / R67: the padding blanks of a math call's argument list are dropped although the
-            // neighbouring characters then fuse: a combining mark with the parenthesis before it,
-            // two dots with the parenthesis / separator after them (a spread)
-            K::Args if in_math[i] => {
-                let kids: Vec<&SyntaxNode> = f.node.children().collect();
-                for w in 0..kids.len() {
-                    let txt = syn::text_of(kids[w]);
-                    if w > 0 && matches!(kids[w - 1].kind(), K::Space) && txt.chars().next().is_some_and(is_combining) {
-                        add("R66");
-                    }
-                    if txt.ends_with("..")
-                        && kids.get(w + 1).is_some_and(|n| n.kind() == K::Space)
-                        && kids.get(w + 2).is_some_and(|n| matches!(n.kind(), K::RightParen | K::Comma | K::Semicolon))
-                    {
-                        add("R67");
-                    }
-                }
+            // R69: a statement embedded in an equation
+            K::LetBinding | K::SetRule | K::ShowRule | K::ModuleImport | K::ModuleInclude
+                if in_math[i] && matches!(f.parent, Some(K::Math | K::MathDelimited | K::MathAttach | K::MathFrac | K::MathRoot | K::Equation)) =>
+            {
+                add("R69")
             }
             // R65: a line comment inside a hash-embedded field access / call chain in math
             K::FieldAccess | K::FuncCall
@@ -788,7 +882,9 @@ pub fn triggers(src: &str, root: &SyntaxNode) -> Vec<&'static str> {
                         && kids[i - 1].kind() == K::Space
                         && kids[..i - 1].iter().any(|b| b.kind() == K::Hash || syn::any_node(b, &mut |x| x.kind() == K::Hash))
                 });
-                if hit {
+                // ... or the base is a dot right behind embedded code (`#(). _y` -> `#()._y`, a field access)
+                let dot_base = kids.first().is_some_and(|b| b.text() == ".") && kids.windows(2).any(|w| w[0].kind() == K::Space && w[1].kind() == K::Underscore);
+                if hit || dot_base {
                     add("R23");
                 }
             }
